@@ -14,6 +14,10 @@ WEIGHTS = {}
 
 def run(ctx):
     histcheck.run(ctx, MODULE, WEIGHTS, TAGS, lean_extra=EXTRA)
+    # "its memory is returned exactly once ... nothing is leaked" also when the payload's destructor panics
+    # while the last owning handle (of every kind) is released
+    from vlib.props import c05
+    c05.drop_panic_pass(ctx, "C01")
 
 
 def replay(ctx, path):
